@@ -28,8 +28,8 @@ export -f run_one; export PROP
 ls "$DIR"/*.diff 2>/dev/null | xargs -P 4 -I{} bash -c 'run_one {}' > "$TMP/res.txt"
 sort "$TMP/res.txt" | sed "s/^/CONTROL $PROP /"
 if [ -f "$EV" ]; then
-  fired=$(grep -c "fired-ok" "$TMP/res.txt"); silent=$(grep -c "silent-ok" "$TMP/res.txt")
-  missed=$(grep -c "MISSED" "$TMP/res.txt"); fa=$(grep -c "FALSE-ALARM" "$TMP/res.txt"); sk=$(grep -c -E "skipped|error" "$TMP/res.txt")
+  fired=$(grep -c " fired-ok$" "$TMP/res.txt"); silent=$(grep -c " silent-ok$" "$TMP/res.txt")
+  missed=$(grep -c " MISSED$" "$TMP/res.txt"); fa=$(grep -c " FALSE-ALARM$" "$TMP/res.txt"); sk=$(grep -c -E " (skipped|error)$" "$TMP/res.txt")
   list=$(sort "$TMP/res.txt" | jq -R . | jq -s .)
   jq --argjson l "$list" --argjson f "$fired" --argjson s "$silent" --argjson m "$missed" --argjson a "$fa" --argjson k "$sk" \
     '.coverage.controls = {seeded_fired:$f, benign_silent:$s, seeded_missed:$m, benign_false_alarm:$a, skipped:$k, results:$l}' "$EV" > "$TMP/ev.json" && mv "$TMP/ev.json" "$EV"
